@@ -1,31 +1,12 @@
 #!/usr/bin/env python3
 """Regenerates /verif/MANIFEST.json from the table below (kept valid at all times)."""
-import json, os
+import glob, json, os
 VERIF = os.path.dirname(os.path.dirname(os.path.abspath(__file__)))
 ALL = ["C%02d" % i for i in range(1, 21)]
 
-CHECKS = {
- "C07": dict(
-   text="Coq theorems over unbounded n about the quorum formulas GENERATED from quorum.go / Messages.sol / governance.ral on every run (equality with floor(2n/3)+1, pairwise agreement, accept-iff for both contracts' count test, >2/3, <=n, list-level quorum intersection); the generated Go formula is additionally run against the real CalculateQuorum on n=0..255 exhaustively + random n inside Coq (vm_compute).",
-   note="Trusted: Coq kernel; python extractor's reading of the three arithmetic expressions (Go `/` = Z.quot, Solidity/Ralph `/` = floor on unsigned); contracts are read, not executed; Go int modelled as Z with the no-overflow theorem for n < 2^59.",
-   technique="Coq proof over extractor-generated definitions + differential check of the generated Go formula against the Go function",
-   design="5 (C07)"),
- "C04": dict(
-   text="Coq theorems for every VAA value: the signing body's fixed-offset big-endian layout, digest = keccak(keccak(body)) for any keccak, independence of version/set index/signatures/sub-second time/guardian, injectivity of the body on its eight fields, and agreement theorems stating that interpreters over the layouts GENERATED from Messages.sol parseVM and governance.ral parseAndVerifyVAA read from Go's wire form exactly the fields Go wrote and hash exactly Go's body (any number <= 255 of signatures). The Gallina body/marshal are run against SerializeBody/Marshal on generated VAAs (vm_compute), and Go-side monitors re-read the offsets and recompute the double Keccak with x/crypto/sha3.",
-   note="Trusted: Coq kernel; the python extractors' reading of Solidity/Ralph (contracts are not executed); Keccak is uninterpreted in theorems; hand-written model of serializeBody/Marshal tied by differential testing.",
-   technique="Coq proof (algebraic laws + cross-language layout agreement over extracted layouts) + differential correspondence",
-   design="5 (C04)"),
- "C05": dict(
-   text="Coq theorems over all VAAs / all byte strings: decode(encode v) = v for every VAA in the representable range (any payload length), every accepted byte string re-encodes to itself and decodes to a completely filled in-range VAA, accepted strings are exactly the encodings (everything else is an error). The decoder model takes its length floor, version and payload-buffer size from the source on every run; it is compared with vaa.Unmarshal (accept/reject, error kind, re-encoding) on round trips, structured mutations and arbitrary strings.",
-   note="Trusted: Coq kernel, extractor of the three constants, hand model of Unmarshal tied by differential testing; memory safety of the Go decoder is observed (recover(), input unchanged), not proved.",
-   technique="Coq proof (round-trip both directions) over a model parameterised by extracted constants + differential correspondence",
-   design="5 (C05)"),
- "C06": dict(
-   text="Coq theorem for every recovery function, every address list (any length, with or without repeats) and every VAA: VerifySignatures' model returns true iff indices are strictly increasing from 0, inside the list, each signature recovers over the VAA's digest to the address at its index, and recovered signers are pairwise distinct; corollaries for duplicate/swap/out-of-set and the redundancy of the distinctness test for repeat-free lists. The model is run with the recorded table of go-ethereum Ecrecover results against the real VerifySignatures on real secp256k1 signatures and every single-step corruption.",
-   note="Trusted: Coq kernel; ECDSA recovery is an oracle (arbitrary function in theorems, recorded table in the correspondence run); 'any changed body bit is rejected' needs unforgeability and is tested, not proved.",
-   technique="Coq proof (iff characterisation for all oracles) + differential correspondence with recorded crypto table",
-   design="5 (C06)"),
-}
+CHECKS = {}
+for f in sorted(glob.glob(os.path.join(VERIF, "checks", "manifest", "C*.json"))):
+    CHECKS[os.path.basename(f)[:-5]] = json.load(open(f))
 
 def main():
     checks = []
